@@ -21,6 +21,7 @@
 
 #include <tao/pegtl.hpp>
 #include <tao/pegtl/buffer_input.hpp>
+#include <tao/pegtl/contrib/rep_one_min_max.hpp>
 
 namespace pegtl = tao::pegtl;
 
@@ -102,6 +103,9 @@ static int match_atom( const std::string& name, In& in )
    if( name == "rq2" ) return pegtl::require< 2 >::match( in );
    if( name == "suc" ) return pegtl::success::match( in );
    if( name == "fai" ) return pegtl::failure::match( in );
+   if( name == "r13" ) return pegtl::rep_one_min_max< 1, 3, 'a' >::match( in );
+   if( name == "r02" ) return pegtl::rep_one_min_max< 0, 2, 'a' >::match( in );
+   if( name == "rn2" ) return pegtl::rep_one_min_max< 1, 2, '\n' >::match( in );
    return -1;
 }
 
